@@ -21,6 +21,15 @@ Fixpoint hex_bytes (s : string) : list N :=
   | _ => []
   end.
 
+(* the same with runs of zero bytes written as `z` + four hex digits (the count): a double array is mostly zero units *)
+Fixpoint hexz_bytes (s : string) : list N :=
+  match s with
+  | String "z" (String a (String b (String c (String d t)))) =>
+      repeat 0 (N.to_nat (4096 * hex_digit a + 256 * hex_digit b + 16 * hex_digit c + hex_digit d)) ++ hexz_bytes t
+  | String a (String b t) => (16 * hex_digit a + hex_digit b) :: hexz_bytes t
+  | _ => []
+  end.
+
 Definition le32 (b0 b1 b2 b3 : N) : N := b0 + 256 * b1 + 65536 * b2 + 16777216 * b3.
 
 (* CowArray::from_bytes: the trie section of the file as little-endian u32 units *)
@@ -191,3 +200,43 @@ Definition traverse_opt (a : list N) (text : list N) (off : nat) : option (list 
   end.
 
 Definition is_byte (k : N) : bool := k <? 256.
+
+(* ---------- UTF-8 as far as character boundaries go: which bytes continue a character, how long a character is ----------
+   (a Rust `str` is always valid UTF-8; surfaces of the lexicon CSV and analysed texts are `str`s) *)
+Definition cont_byte (b : N) : bool := (128 <=? b) && (b <? 192).
+(* number of bytes of the character a lead byte starts; 0 for a continuation byte *)
+Definition lead_width (b : N) : nat :=
+  if b <? 128 then 1 else if b <? 192 then 0 else if b <? 224 then 2 else if b <? 240 then 3 else 4.
+
+(* a whole number of characters: every character is a lead byte followed by exactly width-1 continuation bytes *)
+Inductive chars_ok : list N -> Prop :=
+| chars_nil : chars_ok []
+| chars_cons : forall b conts r,
+    lead_width b = S (length conts) -> Forall (fun c => cont_byte c = true) conts -> chars_ok r ->
+    chars_ok (b :: conts ++ r).
+
+(* executable version (fuel = number of bytes) *)
+Fixpoint strip_conts (n : nat) (t : list N) : option (list N) :=
+  match n with
+  | O => Some t
+  | S n' => match t with
+            | c :: t' => if cont_byte c then strip_conts n' t' else None
+            | [] => None
+            end
+  end.
+Fixpoint chars_ok_go (fuel : nat) (t : list N) : bool :=
+  match t with
+  | [] => true
+  | b :: t' =>
+      match fuel with
+      | O => false
+      | S f => match lead_width b with
+               | O => false
+               | S w => match strip_conts w t' with
+                        | None => false
+                        | Some r => chars_ok_go f r
+                        end
+               end
+      end
+  end.
+Definition chars_ok_b (t : list N) : bool := chars_ok_go (length t) t.
